@@ -48,3 +48,39 @@ func WithValue(parent Context, key, val interface{}) Context {
 var nowFn = time.Now
 
 func SetNow(f func() time.Time) { nowFn = f }
+
+// ---- the rest of package context, unchanged (a changed tree may use any of it) ----------
+
+type CancelCauseFunc = context.CancelCauseFunc
+
+// Cause is context.Cause, except that a harness context that carries a cause of its own
+// (method Cause() error; the standard library cannot be taught about foreign context types)
+// reports that one.
+func Cause(c Context) error {
+	if hc, ok := c.(interface{ Cause() error }); ok {
+		return hc.Cause()
+	}
+	return context.Cause(c)
+}
+
+func WithCancelCause(parent Context) (Context, CancelCauseFunc) {
+	return context.WithCancelCause(parent)
+}
+
+func WithDeadlineCause(parent Context, d time.Time, cause error) (Context, CancelFunc) {
+	if v := Virtual; v != nil {
+		return v(parent, d)
+	}
+	return context.WithDeadlineCause(parent, d, cause)
+}
+
+func WithTimeoutCause(parent Context, t time.Duration, cause error) (Context, CancelFunc) {
+	if v := Virtual; v != nil {
+		return v(parent, nowFn().Add(t))
+	}
+	return context.WithTimeoutCause(parent, t, cause)
+}
+
+func WithoutCancel(parent Context) Context { return context.WithoutCancel(parent) }
+
+func AfterFunc(ctx Context, f func()) (stop func() bool) { return context.AfterFunc(ctx, f) }
